@@ -861,6 +861,16 @@ def _handle_attributes(e, position, part):
     for clef in clefs:
         part.add(score.Clef(**clef), position)
 
+    # <staff-details> (save_musicxml writes one for every score.Staff)
+    for sd in e.findall("staff-details"):
+        part.add(
+            score.Staff(
+                number=get_value_from_attribute(sd, "number", int) or 1,
+                lines=get_value_from_tag(sd, "staff-lines", int),
+            ),
+            position,
+        )
+
 
 def get_offset(e):
     offset = e.find("offset")
